@@ -23,24 +23,111 @@ theorem storable_inline_decision (w : World) (x : SlabID) (wrap lim : Nat) (cx :
       w'.hinfo = w.hinfo ∧ w'.mutIdx = w.mutIdx ∧
       -- storage effect: removed when it becomes inline, stored when it stops being inline
       cx'.eff = cx.eff ++ (if c'.isInlined = c.isInlined then [] else if c'.isInlined then [.remove x] else [.store x]) := by
-  sorry
+  obtain ⟨c', hs, hinl, he, hcase⟩ := childStorable_ok hc h
+  refine ⟨c', ?_, hs.vid.trans hid, hinl, by rw [he], by rw [he], hs.storedElems, ?_⟩
+  · rcases hcase with ⟨_, h2, h3, _⟩ | ⟨_, h3, _⟩
+    · rw [h3, h2]; exact hc
+    · rw [h3]; simp
+  · rcases hcase with ⟨h1, _, h3, h4⟩ | ⟨h1, h3, h4⟩
+    · subst h3; subst h4
+      exact ⟨fun _ _ => rfl, rfl, rfl, by simp [h1]⟩
+    · subst h3; subst h4
+      refine ⟨fun y hy => cont?_setCont_ne _ _ _ _ hy, rfl, rfl, ?_⟩
+      rw [if_neg h1]
+      cases c'.isInlined <;> simp [Ctx.emit]
 
 /-- The notification reaches the parent: if the child's recorded slot in an ARRAY parent still
     holds the child, then after `notifyParentIfNeeded` the parent's element at that slot refers to
     the child with the size of the child's current form, and the child is inline exactly when it
-    fits the slot's budget. -/
+    fits the slot's budget.
+
+    REPAIRED STATEMENT (the original is false, see `section Counterexamples` below):
+    * `hmax` (new): the budget recorded in the callback is the one `Array.set` recomputes
+      (`setCallbackWithChild` always records exactly that; `notifyParent` tests the recorded one,
+      `Array.set` the recomputed one);
+    * `rank`, `hacyc` (new): the parent pointers are acyclic.  The recursive notification of the
+      parent's own ancestors may inline / un-inline the PARENT (its root size changes, its
+      elements do not: hence the conclusion is about `pa'.get idx`), but with a cycle it would come
+      back to `x` itself;
+    * `hset` (new, a fact about `Arr.set` / `Arr.get` taken as hypothesis): setting slot `idx` of
+      the parent array to a reference and reading it back gives that reference.  (`C01.set_refines`
+      cannot be used: it is stated for plain values (`ValueOk`) and standalone arrays only.)
+    * conclusion strengthened by `c'.vid = x ∧ c'.storedElems = c.storedElems`. -/
 theorem notify_updates_array_parent (fuel : Nat) (w : World) (x p : SlabID) (hi : HInfo) (cx : Ctx)
     (c : Cont) (pa : Arr) (idx : Nat) (el : Elem)
     (hh : AList.find? w.hinfo x = some hi) (hp : hi.parent = p) (hc : w.cont? x = some c) (hid : c.vid = x)
     (hpa : w.cont? p = some (.arr pa)) (hidx : AList.find? (w.idxOf p) x = some idx)
     (hget : pa.get idx = .ok el) (hel : el.pay = .ref x)
+    -- REPAIR 1: the budget captured by the callback is the one `Array.set` recomputes
+    (hmax : hi.maxInline = maxInlineArr w.T - 2 * hi.wrap)
+    -- REPAIR 2: the parent pointers are acyclic (they strictly decrease some rank)
+    (rank : SlabID → Nat)
+    (hacyc : ∀ y h, AList.find? w.hinfo y = some h → rank h.parent < rank y)
+    -- fact about `Arr.set` / `Arr.get` on the parent (list-level refinement of `set`, for a reference)
+    (hset : ∀ (e : Elem) (c0 : Ctx) (old : Elem) (a' : Arr) (c1 : Ctx), e.pay = .ref x →
+        pa.set w.T idx e c0 = .ok (old, a', c1) → a'.get idx = .ok e)
     (w' : World) (cx' : Ctx) (h : notifyParent (fuel + 1) w x cx = .ok (w', cx')) :
     ∃ c' pa', w'.cont? x = some c' ∧ w'.cont? p = some (.arr pa') ∧
+      c'.vid = x ∧ c'.storedElems = c.storedElems ∧
       (c.isInlined = false ∧ c.inlinable hi.maxInline = false → w' = w ∧ cx' = cx) ∧
       (¬ (c.isInlined = false ∧ c.inlinable hi.maxInline = false) →
          c'.isInlined = c.inlinable hi.maxInline ∧
          ∃ el', pa'.get idx = .ok el' ∧ el'.pay = .ref x ∧ el'.size = World.slotSize c' hi.wrap) := by
-  sorry
+  subst hp
+  have hrk : rank hi.parent < rank x := hacyc x hi hh
+  have hxp : x ≠ hi.parent := by intro he; rw [← he] at hrk; omega
+  rw [notifyParent] at h
+  simp only [hh, hc] at h
+  split at h
+  · rename_i hstay
+    cases h
+    refine ⟨c, pa, hc, hpa, hid, rfl, fun _ => ⟨rfl, rfl⟩, fun hn => absurd ?_ hn⟩
+    simpa using hstay
+  · rename_i hstay
+    have hnst : ¬ (c.isInlined = false ∧ c.inlinable hi.maxInline = false) := by simpa using hstay
+    simp only [hpa, hidx, hget, hel, ne_eq, not_true_eq_false, if_false] at h
+    split at h
+    · cases h
+    · rename_i old w2 cx2 hsr
+      split at h
+      · cases h
+      · cases h
+        rw [arrSetRaw] at hsr
+        simp only [hpa] at hsr
+        split at hsr
+        · cases hsr
+        · simp only [World.storableOf] at hsr
+          split at hsr
+          · cases hsr
+          · rename_i e w1 cx1 hst
+            split at hsr
+            · cases hsr
+            · rename_i old1 a' cx3 hs
+              split at hsr
+              · cases hsr
+              · rename_i w3 cx4 hnp
+                cases hsr
+                obtain ⟨c1, hsd, hinl, he, hcase⟩ := childStorable_ok hc hst
+                obtain ⟨f1, _, fT, _, _, _, _⟩ := childStorable_frame hst
+                have hc1 : w1.cont? x = some c1 := by
+                  rcases hcase with ⟨_, h2, h3, _⟩ | ⟨_, h3, _⟩
+                  · rw [h3, h2]; exact hc
+                  · rw [h3]; simp
+                rw [fT] at hs
+                have hg : a'.get idx = .ok e := hset e cx1 old a' cx3 (by rw [he]) hs
+                have hr2 : RankOk rank (w1.setCont hi.parent (.arr a')) := by
+                  intro y h' hy
+                  simp only [hinfo_setCont, f1] at hy
+                  exact hacyc y h' hy
+                obtain ⟨_, g2, g3⟩ := (mutual_frame rank fuel).1 _ _ _ _ _ hr2 hnp
+                rw [cont?_setCont_self] at g3
+                obtain ⟨cp', hcp', hsp⟩ := g3.get_some
+                obtain ⟨pa', rfl, _, _, hgets⟩ := hsp.arr
+                refine ⟨c1, pa', ?_, ?_, hsd.vid.trans hid, hsd.storedElems, fun hs => absurd hs hnst, fun _ => ⟨?_, e, ?_, by rw [he], by rw [he]⟩⟩
+                · rw [cont?_setCallbackArr, g2 x hxp (by omega), cont?_setCont_ne _ _ _ _ hxp]; exact hc1
+                · rw [cont?_setCallbackArr]; exact hcp'
+                · rw [hinl, hmax]
+                · rw [hgets]; exact hg
 
 /-- A container handed back by `Set` / `Remove` is no longer inline: it has been stored as a
     standalone slab under its unchanged value ID, and what the caller gets is a reference to it. -/
@@ -52,7 +139,19 @@ theorem handed_back_is_standalone (w : World) (e : Elem) (cx : Ctx) (x : SlabID)
     ∃ c', w'.cont? x = some c' ∧ c'.isInlined = false ∧ c'.vid = x ∧ c'.storedElems = c.storedElems ∧
       (c.isInlined = true → cx'.eff = cx.eff ++ [.store x] ∧ e'.size = slabIDStorableSize + (e.size - c.rootSize)) ∧
       (c.isInlined = false → cx' = cx ∧ e' = e ∧ w' = w) := by
-  sorry
+  obtain ⟨hpay, _, _, _, _, hcase⟩ := uninlineIfNeeded_ok h
+  rcases hcase with ⟨_, _, _, _, hnone⟩ | ⟨x', c0, hov, hp', hc0, hcase2⟩
+  · rw [hnone x he] at hc; cases hc
+  · rw [he] at hp'; cases hp'
+    rw [hc] at hc0; cases hc0
+    refine ⟨hov, by rw [hpay, he], ?_⟩
+    rcases hcase2 with ⟨hi, h2, h3, h4⟩ | ⟨hi, c', hs, hi', h3, h4, h5⟩
+    · subst h2; subst h3; subst h4
+      refine ⟨c, hc, hi, hid, rfl, ?_, fun _ => ⟨rfl, rfl, rfl⟩⟩
+      intro ht; rw [hi] at ht; cases ht
+    · subst h3; subst h4; subst h5
+      refine ⟨c', by simp, hi', hs.vid.trans hid, hs.storedElems, fun _ => ⟨rfl, rfl⟩, ?_⟩
+      intro hf; rw [hi] at hf; cases hf
 
 /-- `incrementIndexFrom` / `decrementIndexFrom` range over a Go map in random order: the result
     does not depend on the order (C04). -/
@@ -60,16 +159,328 @@ theorem index_shift_order_independent (w : World) (p : SlabID) (f : Nat → Nat)
     (perm : AList SlabID Nat) (hperm : perm.Perm (w.idxOf p)) (x : SlabID)
     (hnd : (AList.keys (w.idxOf p)).Nodup) :
     AList.find? (perm.map (fun e => (e.1, f e.2))) x = AList.find? ((w.shiftIdx p f).idxOf p) x := by
-  sorry
+  rw [idxOf_shiftIdx, if_pos rfl]
+  apply AList.find?_perm (hperm.map _)
+  have : AList.keys ((w.idxOf p).map (fun e => (e.1, f e.2))) = AList.keys (w.idxOf p) :=
+    AList.keys_map_snd (w.idxOf p) (fun _ v => f v)
+  rw [this]; exact hnd
 
 /-- Value identifiers never change: every World operation keeps every container filed under its
-    value ID (inline ↔ standalone transitions included). -/
+    value ID (inline ↔ standalone transitions included).  The `hroot…` hypotheses abstract "array /
+    map operations keep the root ID"; they are satisfiable: see `section RootStability`. -/
 theorem value_id_stable_arrInsert (w : World) (hids : IdsOk w) (p : SlabID) (i : Nat) (v : WVal) (cx : Ctx)
     (w' : World) (cx' : Ctx) (h : w.arrInsert p i v cx = .ok (w', cx'))
     (hroot : ∀ (a a' : Arr) (c c' : Ctx) (j : Nat) (e : Elem), a.insert w.T j e c = .ok (a', c') → a'.rootID = a.rootID)
     (hroot2 : ∀ (a a' : Arr) (c c' : Ctx) (j : Nat) (e old : Elem), a.set w.T j e c = .ok (old, a', c') → a'.rootID = a.rootID)
     (hroot3 : ∀ (m m' : OMap 3) (c c' : Ctx) (k : MKey) (e : Elem) (old : Option Elem), m.set w.mcfg k e c = .ok (old, m', c') → m'.rootID = m.rootID) :
     IdsOk w' ∧ ∀ vid, (w.cont? vid).isSome → (w'.cont? vid).isSome := by
-  sorry
+  have d := arrInsert_domRel h
+  exact ⟨d.idsOk ⟨⟨hroot2, hroot3⟩, hroot⟩ hids, fun vid hv => d.keeps_isSome hv⟩
+
+/-- the same for `Array.Set` -/
+theorem value_id_stable_arrSet (w : World) (hids : IdsOk w) (p : SlabID) (i : Nat) (v : WVal) (cx : Ctx)
+    (old : Elem) (w' : World) (cx' : Ctx) (h : w.arrSet p i v cx = .ok (old, w', cx'))
+    (hroot2 : ∀ (a a' : Arr) (c c' : Ctx) (j : Nat) (e old : Elem), a.set w.T j e c = .ok (old, a', c') → a'.rootID = a.rootID)
+    (hroot3 : ∀ (m m' : OMap 3) (c c' : Ctx) (k : MKey) (e : Elem) (old : Option Elem), m.set w.mcfg k e c = .ok (old, m', c') → m'.rootID = m.rootID) :
+    IdsOk w' ∧ ∀ vid, (w.cont? vid).isSome → (w'.cont? vid).isSome := by
+  have d := arrSet_domRel h
+  exact ⟨d.idsOk ⟨hroot2, hroot3⟩ hids, fun vid hv => d.keeps_isSome hv⟩
+
+/-- the same for `Array.Remove` (`hroot4`: `Arr.remove` keeps the root ID) -/
+theorem value_id_stable_arrRemove (w : World) (hids : IdsOk w) (p : SlabID) (i : Nat) (cx : Ctx)
+    (old : Elem) (w' : World) (cx' : Ctx) (h : w.arrRemove p i cx = .ok (old, w', cx'))
+    (hroot4 : ∀ (a a' : Arr) (c c' : Ctx) (j : Nat) (old : Elem), a.remove w.T j c = .ok (old, a', c') → a'.rootID = a.rootID)
+    (hroot2 : ∀ (a a' : Arr) (c c' : Ctx) (j : Nat) (e old : Elem), a.set w.T j e c = .ok (old, a', c') → a'.rootID = a.rootID)
+    (hroot3 : ∀ (m m' : OMap 3) (c c' : Ctx) (k : MKey) (e : Elem) (old : Option Elem), m.set w.mcfg k e c = .ok (old, m', c') → m'.rootID = m.rootID) :
+    IdsOk w' ∧ ∀ vid, (w.cont? vid).isSome → (w'.cont? vid).isSome := by
+  have d := arrRemove_domRel h
+  exact ⟨d.idsOk ⟨⟨hroot2, hroot3⟩, hroot4⟩ hids, fun vid hv => d.keeps_isSome hv⟩
+
+/-- the same for `OrderedMap.Set` -/
+theorem value_id_stable_mapSet (w : World) (hids : IdsOk w) (p : SlabID) (k : MKey) (v : WVal) (cx : Ctx)
+    (old : Option Elem) (w' : World) (cx' : Ctx) (h : w.mapSet p k v cx = .ok (old, w', cx'))
+    (hroot2 : ∀ (a a' : Arr) (c c' : Ctx) (j : Nat) (e old : Elem), a.set w.T j e c = .ok (old, a', c') → a'.rootID = a.rootID)
+    (hroot3 : ∀ (m m' : OMap 3) (c c' : Ctx) (k : MKey) (e : Elem) (old : Option Elem), m.set w.mcfg k e c = .ok (old, m', c') → m'.rootID = m.rootID) :
+    IdsOk w' ∧ ∀ vid, (w.cont? vid).isSome → (w'.cont? vid).isSome := by
+  have d := mapSet_domRel h
+  exact ⟨d.idsOk ⟨hroot2, hroot3⟩ hids, fun vid hv => d.keeps_isSome hv⟩
+
+/-- the same for `OrderedMap.Remove` (`hroot5`: `OMap.remove` keeps the root ID) -/
+theorem value_id_stable_mapRemove (w : World) (hids : IdsOk w) (p : SlabID) (k : MKey) (cx : Ctx)
+    (rk : MKey) (rv : Elem) (w' : World) (cx' : Ctx) (h : w.mapRemove p k cx = .ok (rk, rv, w', cx'))
+    (hroot5 : ∀ (m m' : OMap 3) (c c' : Ctx) (k rk : MKey) (rv : Elem), m.remove w.mcfg k c = .ok (rk, rv, m', c') → m'.rootID = m.rootID)
+    (hroot2 : ∀ (a a' : Arr) (c c' : Ctx) (j : Nat) (e old : Elem), a.set w.T j e c = .ok (old, a', c') → a'.rootID = a.rootID)
+    (hroot3 : ∀ (m m' : OMap 3) (c c' : Ctx) (k : MKey) (e : Elem) (old : Option Elem), m.set w.mcfg k e c = .ok (old, m', c') → m'.rootID = m.rootID) :
+    IdsOk w' ∧ ∀ vid, (w.cont? vid).isSome → (w'.cont? vid).isSome := by
+  have d := mapRemove_domRel h
+  exact ⟨d.idsOk ⟨⟨hroot2, hroot3⟩, hroot5⟩ hids, fun vid hv => d.keeps_isSome hv⟩
+
+section RootStability
+/-! The `hroot…` hypotheses hold for EVERY array / map (every slab update keeps the header ID;
+    `AtreeProofs/World/RootStable.lean`), so the five theorems above hold unconditionally. -/
+
+theorem value_id_stable (w : World) (hids : IdsOk w) :
+    (∀ p i v cx w' cx', w.arrInsert p i v cx = .ok (w', cx') →
+        IdsOk w' ∧ ∀ vid, (w.cont? vid).isSome → (w'.cont? vid).isSome) ∧
+    (∀ p i v cx old w' cx', w.arrSet p i v cx = .ok (old, w', cx') →
+        IdsOk w' ∧ ∀ vid, (w.cont? vid).isSome → (w'.cont? vid).isSome) ∧
+    (∀ p i cx old w' cx', w.arrRemove p i cx = .ok (old, w', cx') →
+        IdsOk w' ∧ ∀ vid, (w.cont? vid).isSome → (w'.cont? vid).isSome) ∧
+    (∀ p k v cx old w' cx', w.mapSet p k v cx = .ok (old, w', cx') →
+        IdsOk w' ∧ ∀ vid, (w.cont? vid).isSome → (w'.cont? vid).isSome) ∧
+    (∀ p k cx rk rv w' cx', w.mapRemove p k cx = .ok (rk, rv, w', cx') →
+        IdsOk w' ∧ ∀ vid, (w.cont? vid).isSome → (w'.cont? vid).isSome) := by
+  have h2 := (rootStable w.T w.mcfg).1
+  have h3 := (rootStable w.T w.mcfg).2
+  refine ⟨?_, ?_, ?_, ?_, ?_⟩
+  · intro p i v cx w' cx' h
+    exact value_id_stable_arrInsert w hids p i v cx w' cx' h (insertRootStable w.T) h2 h3
+  · intro p i v cx old w' cx' h
+    exact value_id_stable_arrSet w hids p i v cx old w' cx' h h2 h3
+  · intro p i cx old w' cx' h
+    exact value_id_stable_arrRemove w hids p i cx old w' cx' h (removeRootStable w.T) h2 h3
+  · intro p k v cx old w' cx' h
+    exact value_id_stable_mapSet w hids p k v cx old w' cx' h h2 h3
+  · intro p k cx rk rv w' cx' h
+    exact value_id_stable_mapRemove w hids p k cx rk rv w' cx' h (mapRemoveRootStable w.mcfg) h2 h3
+
+end RootStability
+
+/-- After `childStorable`, the element handed to the parent satisfies the `ElemSync` size equation
+    for the NEW state of the child. -/
+theorem elem_sync_childStorable (w : World) (x : SlabID) (wrap lim : Nat) (cx : Ctx)
+    (e : Elem) (w' : World) (cx' : Ctx) (h : w.childStorable x wrap lim cx = .ok (e, w', cx')) :
+    e.pay = .ref x ∧ ∃ c', w'.cont? x = some c' ∧ e.size = World.slotSize c' wrap := by
+  obtain ⟨c, hc⟩ := childStorable_some h
+  obtain ⟨c', _, _, he, hcase⟩ := childStorable_ok hc h
+  refine ⟨by rw [he], c', ?_, by rw [he]⟩
+  rcases hcase with ⟨_, h2, h3, _⟩ | ⟨_, h3, _⟩
+  · rw [h3, h2]; exact hc
+  · rw [h3]; simp
+
+/-- `mutableElementIndex` stays correct through `Array.Insert`: every recorded index still holds a
+    reference to its child afterwards (shifted entries, the new child's entry, and the slots that
+    the notification of the ancestors rewrites).
+    The list-level behaviour of the array operations is taken as hypotheses, in the style of
+    `hroot…`, relative to an arbitrary invariant `I` of arrays (`I := fun _ => True` gives the
+    unconditional reading): `set` of a reference / `insert` refine `List.set` / `List.insertIdx`
+    and keep `I`; `get` reads the list; `I` does not depend on the inline / standalone form.
+    (`C01.set_refines` / `insert_refines` are the instances for plain values and standalone arrays;
+    they do not cover references nor inlined roots, hence hypotheses.) -/
+theorem mutIdx_ok_arrInsert (w : World) (p : SlabID) (i : Nat) (v : WVal) (cx : Ctx)
+    (w' : World) (cx' : Ctx) (h : w.arrInsert p i v cx = .ok (w', cx'))
+    (hmi : MutIdxOk w)
+    (I : Arr → Prop) (hI : ∀ q a, w.cont? q = some (.arr a) → I a)
+    (hsetL : ∀ (a a' : Arr) (c c' : Ctx) (j : Nat) (e old : Elem), I a → a.set w.T j e c = .ok (old, a', c') →
+      (∃ r, e.pay = .ref r) → I a' ∧ a'.toList = a.toList.set j e)
+    (hinsL : ∀ (a a' : Arr) (c c' : Ctx) (j : Nat) (e : Elem), I a → a.insert w.T j e c = .ok (a', c') →
+      I a' ∧ j ≤ a.toList.length ∧ ∃ e', a'.toList = a.toList.insertIdx j e' ∧ (∀ r, e.pay = .ref r → e' = e))
+    (hgetL : ∀ (a : Arr) (j : Nat) (el : Elem), I a → a.get j = .ok el → a.toList[j]? = some el)
+    (hform : ∀ (a a' : Arr), a'.toList = a.toList → a'.rootID = a.rootID → (∀ i, a'.get i = a.get i) → I a → I a') :
+    MutIdxOk w' ∧ ∀ q a, w'.cont? q = some (.arr a) → I a := by
+  have F : ArrFacts w.T I := ⟨hsetL, hinsL, hgetL, hform⟩
+  have := arrInsert_mInv F rfl ⟨hI, hmi⟩ h
+  exact ⟨this.2, this.1⟩
+
+section Counterexamples
+/-! The original statement of `notify_updates_array_parent` had neither `hmax` nor the acyclicity
+    hypothesis.  Both are needed: each of the two statements below — the repaired theorem minus ONE
+    of the two repairs — is refuted on a concrete (hand-built) World. -/
+open Atree.Scenario (okW eq_okW)
+
+def P : SlabID := ⟨1, 1⟩
+def X : SlabID := ⟨1, 2⟩
+/-- a single-slab array with the given elements -/
+def mkArr (sid : SlabID) (inl : Bool) (es : List Elem) : Arr :=
+  let h : Hdr := ⟨sid, (if inl then 17 else 5) + sumSizes es, es.length⟩
+  let s : DataSlab := ⟨h, SlabID.undef, es, true, inl⟩
+  ⟨0, s, 0⟩
+def cxA : Ctx := { ctr := 2, eff := [] }
+
+/-- CE 1: an inlined 27-byte child `X` in slot 0 of `P`, whose callback recorded the budget 0
+    although `Array.set` recomputes 117. -/
+def wA : World :=
+  { T := 256, addr := 1,
+    conts := [(P, .arr (mkArr P false [⟨27, .ref X⟩])), (X, .arr (mkArr X true [⟨10, .val 0⟩]))],
+    hinfo := [(X, ⟨P, none, 0, 0⟩)],
+    mutIdx := [(P, [(X, 0)])] }
+def rA : World × Ctx := okW (notifyS 3 wA X cxA)
+/-- `wA` is acyclic: `P` is the root -/
+def rankA : SlabID → Nat := fun z => if z = X then 1 else 0
+
+/-- the repaired statement without `hmax` -/
+def StmtWithoutBudgetHyp : Prop :=
+  ∀ (fuel : Nat) (w : World) (x p : SlabID) (hi : HInfo) (cx : Ctx)
+    (c : Cont) (pa : Arr) (idx : Nat) (el : Elem),
+    AList.find? w.hinfo x = some hi → hi.parent = p → w.cont? x = some c → c.vid = x →
+    w.cont? p = some (.arr pa) → AList.find? (w.idxOf p) x = some idx →
+    pa.get idx = .ok el → el.pay = .ref x →
+    ∀ (rank : SlabID → Nat), (∀ y h, AList.find? w.hinfo y = some h → rank h.parent < rank y) →
+    (∀ (e : Elem) (c0 : Ctx) (old : Elem) (a' : Arr) (c1 : Ctx), e.pay = .ref x →
+        pa.set w.T idx e c0 = .ok (old, a', c1) → a'.get idx = .ok e) →
+    ∀ (w' : World) (cx' : Ctx), notifyParent (fuel + 1) w x cx = .ok (w', cx') →
+    ∃ c' pa', w'.cont? x = some c' ∧ w'.cont? p = some (.arr pa') ∧
+      (c.isInlined = false ∧ c.inlinable hi.maxInline = false → w' = w ∧ cx' = cx) ∧
+      (¬ (c.isInlined = false ∧ c.inlinable hi.maxInline = false) →
+         c'.isInlined = c.inlinable hi.maxInline ∧
+         ∃ el', pa'.get idx = .ok el' ∧ el'.pay = .ref x ∧ el'.size = World.slotSize c' hi.wrap)
+
+theorem stmtWithoutBudgetHyp_false : ¬ StmtWithoutBudgetHyp := by
+  intro H
+  have hr : notifyParent (2 + 1) wA X cxA = .ok (rA.1, rA.2) := by
+    rw [notifyParent_eq_notifyS]; exact eq_okW _ (by decide)
+  have hacyc : ∀ y h, AList.find? wA.hinfo y = some h → rankA h.parent < rankA y := by
+    intro y h hy
+    simp only [wA, AList.find?] at hy
+    split at hy
+    · rename_i hxy; cases hy; subst hxy; decide
+    · cases hy
+  obtain ⟨c', pa', hc', _, _, h2⟩ := H 2 wA X P ⟨P, none, 0, 0⟩ cxA (.arr (mkArr X true [⟨10, .val 0⟩]))
+    (mkArr P false [⟨27, .ref X⟩]) 0 ⟨27, .ref X⟩ rfl rfl rfl rfl rfl rfl rfl rfl rankA hacyc
+    (fun e c0 old a' c1 he hs => Arr.set_get_single 256 0 _ _ rfl e X he c0 old a' c1 hs) _ _ hr
+  have h3 := (h2 (by decide)).1
+  have h4 : (rA.1.cont? X).map Cont.isInlined = some true := by decide
+  rw [hc'] at h4
+  simp only [Option.map_some, Option.some.injEq] at h4
+  rw [h4] at h3
+  revert h3; decide
+
+/-- CE 2: `X` is recorded in slot 0 of `P` and `P` in slot 0 of `X` (a cycle of parent pointers).
+    The notification from `X` inlines `X` into `P`, `P` into `X`, which makes `X` too large: it is
+    un-inlined again and ends up standalone although it was inlinable. -/
+def wB : World :=
+  { T := 256, addr := 1,
+    conts := [(P, .arr (mkArr P false [⟨19, .ref X⟩])),
+              (X, .arr (mkArr X false [⟨1, .ref P⟩, ⟨70, .val 0⟩]))],
+    hinfo := [(X, ⟨P, none, 117, 0⟩), (P, ⟨X, none, 117, 0⟩)],
+    mutIdx := [(P, [(X, 0)]), (X, [(P, 0)])] }
+def rB : World × Ctx := okW (notifyS 7 wB X cxA)
+
+/-- the repaired statement without the acyclicity hypothesis -/
+def StmtWithoutAcyclicity : Prop :=
+  ∀ (fuel : Nat) (w : World) (x p : SlabID) (hi : HInfo) (cx : Ctx)
+    (c : Cont) (pa : Arr) (idx : Nat) (el : Elem),
+    AList.find? w.hinfo x = some hi → hi.parent = p → w.cont? x = some c → c.vid = x →
+    w.cont? p = some (.arr pa) → AList.find? (w.idxOf p) x = some idx →
+    pa.get idx = .ok el → el.pay = .ref x →
+    hi.maxInline = maxInlineArr w.T - 2 * hi.wrap →
+    (∀ (e : Elem) (c0 : Ctx) (old : Elem) (a' : Arr) (c1 : Ctx), e.pay = .ref x →
+        pa.set w.T idx e c0 = .ok (old, a', c1) → a'.get idx = .ok e) →
+    ∀ (w' : World) (cx' : Ctx), notifyParent (fuel + 1) w x cx = .ok (w', cx') →
+    ∃ c' pa', w'.cont? x = some c' ∧ w'.cont? p = some (.arr pa') ∧
+      (c.isInlined = false ∧ c.inlinable hi.maxInline = false → w' = w ∧ cx' = cx) ∧
+      (¬ (c.isInlined = false ∧ c.inlinable hi.maxInline = false) →
+         c'.isInlined = c.inlinable hi.maxInline ∧
+         ∃ el', pa'.get idx = .ok el' ∧ el'.pay = .ref x ∧ el'.size = World.slotSize c' hi.wrap)
+
+theorem stmtWithoutAcyclicity_false : ¬ StmtWithoutAcyclicity := by
+  intro H
+  have hr : notifyParent (6 + 1) wB X cxA = .ok (rB.1, rB.2) := by
+    rw [notifyParent_eq_notifyS]; exact eq_okW _ (by decide)
+  obtain ⟨c', pa', hc', _, _, h2⟩ := H 6 wB X P ⟨P, none, 117, 0⟩ cxA
+    (.arr (mkArr X false [⟨1, .ref P⟩, ⟨70, .val 0⟩]))
+    (mkArr P false [⟨19, .ref X⟩]) 0 ⟨19, .ref X⟩ rfl rfl rfl rfl rfl rfl rfl rfl (by decide)
+    (fun e c0 old a' c1 he hs => Arr.set_get_single 256 0 _ _ rfl e X he c0 old a' c1 hs) _ _ hr
+  have h3 := (h2 (by decide)).1
+  have h4 : (rB.1.cont? X).map Cont.isInlined = some false := by decide
+  rw [hc'] at h4
+  simp only [Option.map_some, Option.some.injEq] at h4
+  rw [h4] at h3
+  revert h3; decide
+
+end Counterexamples
+
+section NonVacuity
+/-! A concrete run of the model (`AtreeProofs/World/Scenario.lean`, T = 256): root array `R`,
+    child array `X` inserted into it (state `s3`), five 20-byte values inserted through `X`
+    (`s4 … s8`: it stays inline, ending at 117 bytes = the inline limit), a sixth one (`s9`: 137
+    bytes, un-inlined), `X` removed from `R` (`s10`), one value removed from the detached `X`
+    (`s11`).  `mid9` is the state at the call of `notifyParent` inside the sixth insert. -/
+open Atree.Scenario
+
+/-- what the run looks like: the child is inline (and the parent's element has its size) up to
+    the limit, then standalone (the parent holds the 19-byte reference); storage effects of the
+    transitions -/
+theorem run_facts :
+    s1.1 = R ∧ s2.1 = X ∧
+    (s3.1.cont? X).map Cont.isInlined = some true ∧
+    (s3.1.cont? R).map Cont.storedElems = some [⟨17, .ref X⟩] ∧
+    s3.2.eff = s2.2.2.eff ++ [.remove X, .store R] ∧
+    (s8.1.cont? X).map Cont.isInlined = some true ∧ (s8.1.cont? X).map Cont.rootSize = some 117 ∧
+    (s8.1.cont? R).map Cont.storedElems = some [⟨117, .ref X⟩] ∧
+    (s9.1.cont? X).map Cont.isInlined = some false ∧ (s9.1.cont? X).map Cont.rootSize = some 125 ∧
+    (s9.1.cont? R).map Cont.storedElems = some [⟨19, .ref X⟩] ∧
+    s9.2.eff = s8.2.eff ++ [.store X, .store R] ∧
+    s10.1 = ⟨19, .ref X⟩ ∧ (s10.2.1.cont? R).map Cont.storedElems = some [] ∧
+    AList.find? (s9.1.idxOf R) X = some 0 ∧ AList.find? (s10.2.1.idxOf R) X = none := by
+  decide
+
+/-- the index tables are correct all along the run (executable check of `MutIdxOk`) -/
+theorem run_mutIdx :
+    mutIdxOkB s3.1 = true ∧ mutIdxOkB s8.1 = true ∧ mutIdxOkB mid9.1 = true ∧ mutIdxOkB s9.1 = true ∧
+    mutIdxOkB s10.2.1 = true ∧ mutIdxOkB s11.2.1 = true := by decide
+
+/-- `storable_inline_decision` / `elem_sync_childStorable` are exercised by the first insert:
+    `childStorable` inlines the fresh child -/
+theorem childStorable_run :
+    (match s2.2.1.childStorable X 0 (maxInlineArr 256) s2.2.2 with
+     | .ok (e, w, cx) => some (e, (w.cont? X).map Cont.isInlined, cx.eff.drop 4)
+     | .error _ => none) = some (⟨17, .ref X⟩, some true, [.remove X]) := by decide
+
+/-- The hypotheses of `notify_updates_array_parent` are met at `mid9` (the child has grown to 137
+    bytes and is still inline; fuel `3 + 1 = mid9.1.fuelOf`), in the interesting branch. -/
+theorem notify_hyps_met :
+    ∃ (c : Cont) (pa : Arr) (el : Elem) (w' : World) (cx' : Ctx) (rank : SlabID → Nat),
+      AList.find? mid9.1.hinfo X = some ⟨R, none, 117, 0⟩ ∧
+      mid9.1.cont? X = some c ∧ c.vid = X ∧
+      mid9.1.cont? R = some (.arr pa) ∧ AList.find? (mid9.1.idxOf R) X = some 0 ∧
+      pa.get 0 = .ok el ∧ el.pay = .ref X ∧
+      (117 : Nat) = maxInlineArr mid9.1.T - 2 * 0 ∧
+      (∀ y h, AList.find? mid9.1.hinfo y = some h → rank h.parent < rank y) ∧
+      (∀ (e : Elem) (c0 : Ctx) (old : Elem) (a' : Arr) (c1 : Ctx), e.pay = .ref X →
+          pa.set mid9.1.T 0 e c0 = .ok (old, a', c1) → a'.get 0 = .ok e) ∧
+      notifyParent (3 + 1) mid9.1 X mid9.2 = .ok (w', cx') ∧
+      ¬ (c.isInlined = false ∧ c.inlinable 117 = false) ∧
+      -- and this notification is the one `arrInsert` performs:
+      (w'.setCallbackArr X 5 (pl 6), cx') = s9 := by
+  refine ⟨.arr (arrOf mid9.1 X), arrOf s8.1 R, ⟨117, .ref X⟩,
+    (okW (notifyS 4 mid9.1 X mid9.2)).1, (okW (notifyS 4 mid9.1 X mid9.2)).2,
+    fun z => if z = X then 1 else 0, by decide, rfl, by decide, rfl, by decide, rfl, rfl, by decide, ?_, ?_, ?_, by decide, rfl⟩
+  · intro y h hy
+    have hh : mid9.1.hinfo = [(X, ⟨R, none, 117, 0⟩)] := by decide
+    rw [hh] at hy
+    simp only [AList.find?] at hy
+    split at hy
+    · rename_i hxy; cases hy; subst hxy; decide
+    · cases hy
+  · intro e c0 old a' c1 he hs
+    exact Arr.set_get_single 256 7 _ _ rfl e X he c0 old a' c1 hs
+  · rw [notifyParent_eq_notifyS]; exact eq_okW _ (by decide)
+
+/-- … hence its conclusion holds there; concretely: the child is un-inlined and slot 0 of the
+    parent holds the 19-byte reference. -/
+theorem notify_conclusion_at_mid9 :
+    ∃ w' cx' c' pa', notifyParent (3 + 1) mid9.1 X mid9.2 = .ok (w', cx') ∧
+      w'.cont? X = some c' ∧ w'.cont? R = some (.arr pa') ∧ c'.isInlined = false ∧
+      pa'.get 0 = .ok ⟨19, .ref X⟩ := by
+  obtain ⟨c, pa, el, w', cx', rank, hh, hc, hid, hpa, hidx, hget, hel, hmax, hacyc, hset, h, hn, _⟩ := notify_hyps_met
+  obtain ⟨c', pa', hc', hpa', _, _, _, h2⟩ := notify_updates_array_parent 3 mid9.1 X R ⟨R, none, 117, 0⟩ mid9.2
+    c pa 0 el hh rfl hc hid hpa hidx hget hel hmax rank hacyc hset w' cx' h
+  obtain ⟨hinl, el', hg', hp', hs'⟩ := h2 hn
+  have hci : c.inlinable 117 = false := by
+    have : (mid9.1.cont? X).map (fun c => Cont.inlinable c 117) = some false := by decide
+    rw [hc] at this; simpa using this
+  have hinl' : c'.isInlined = false := by rw [hinl]; exact hci
+  refine ⟨w', cx', c', pa', h, hc', hpa', hinl', ?_⟩
+  rw [hg']
+  have : el' = ⟨19, .ref X⟩ := by
+    cases el' with
+    | mk sz py =>
+      simp only at hp' hs'
+      simp only [World.slotSize, hinl'] at hs'
+      subst hp'; subst hs'; rfl
+  rw [this]
+
+end NonVacuity
 
 end Atree.C10
